@@ -32,6 +32,11 @@ for blk in re.findall(r'```json\n(.*?)```', notes, re.S):
         continue
     except Exception:
         pass
+    try:
+        for x in json.loads('[' + blk.strip().rstrip(',') + ']'): take(x)
+        continue
+    except Exception:
+        pass
     for line in blk.split('\n'):
         line = line.strip().rstrip(',')
         if line.startswith('{'):
